@@ -301,7 +301,8 @@ class SmtpRelayClient(RelayPoolClient):
         return False
 
     def _disconnect(self):
-        assert self.client is not None
+        if self.client is None:
+            return
         try:
             with Timeout(self.command_timeout):
                 self.client.quit()
@@ -362,6 +363,15 @@ class SmtpRelayClient(RelayPoolClient):
             if not result.ready():
                 result.set_exception(e)
             reraise = False
+            raise
+        except BaseException:
+            # Killed (RelayPool.kill()) while holding a request: the caller of
+            # attempt() is waiting on the result, never drop it.
+            if not result.ready():
+                reply = Reply('421', '4.3.0 Relay client was shut down',
+                              command=self.current_command,
+                              address=self.address)
+                result.set_exception(SmtpRelayError.factory(reply))
             raise
         finally:
             try:
